@@ -36,7 +36,7 @@ Theorem C04_tlv_cstr :
 Proof. exact cstr_tlv_layout. Qed.
 
 Theorem C04_tlv_ostr :
-  forall tag size s, In (tag, (KOStr, size)) spec_tlv_table -> tag <> TLV_MESSAGE_PAYLOAD -> ascii_text s -> Z.of_nat (length s) <= 65535 ->
+  forall tag size s, In (tag, (KOStr, size)) spec_tlv_table -> tag <> TLV_MESSAGE_PAYLOAD -> octet_text s -> Z.of_nat (length s) <= 65535 ->
   op_tlv {| op_tag := tag; op_val := TStr s |} = Ok (spec_tlv tag s).
 Proof. exact ostr_tlv_layout. Qed.
 
